@@ -24,11 +24,12 @@ def main():
         if not ok:
             print(out)
             return 1
-        rc, out = vlib.sh(['make', '-j16'], cwd=vlib.COQ, timeout=7200)
+        # -k: a file that does not compile must only affect the checks whose closure contains it
+        # (each check builds its own closure again and reports a broken obligation itself)
+        rc, out = vlib.sh(['make', '-k', '-j16'], cwd=vlib.COQ, timeout=7200)
     print(out[-3000:])
     if rc != 0:
-        print('setup: Coq build failed')
-        return 1
+        print('setup: WARNING: some Coq files did not compile (see above); the checks that depend on them will report it')
     # warm the Go build cache for every harness command
     import shutil
     shutil.copyfile(os.path.join(vlib.REPO, 'codec', 'go.sum'), os.path.join(vlib.HARNESS, 'go.sum'))
